@@ -121,6 +121,17 @@ import (
 var verifHarnesses = map[string]func(){
 %s}
 
+func verifWatchdog(def int) time.Duration {
+	if v := os.Getenv("VERIF_WATCHDOG"); v != "" {
+		var n int
+		fmt.Sscanf(v, "%%d", &n)
+		if n > 0 {
+			return time.Duration(n) * time.Second
+		}
+	}
+	return time.Duration(def) * time.Second
+}
+
 func TestVerifReplay(t *testing.T) {
 	done := make(chan string, 1)
 	go func() {
@@ -148,11 +159,12 @@ func TestVerifReplay(t *testing.T) {
 	select {
 	case s := <-done:
 		fmt.Println("VERIF-RESULT:", s)
-	case <-time.After(%d * time.Second):
+	case <-time.After(verifWatchdog(%d)):
 		fmt.Println("VERIF-RESULT: deadlock (no return within the watchdog)")
 	}
 	tb, _ := json.Marshal(zz.Trace)
 	fmt.Println("VERIF-TRACE:", string(tb))
+	fmt.Println("VERIF-MODEL-VALIDATED:", zz.ModelValidated)
 }
 `
 
@@ -242,6 +254,9 @@ func runNative(pkgRel, pkgName, harnessName, replayPath string, watchdog int) (s
 		cmd.Dir = repoDir
 	}
 	cmd.Env = append(os.Environ(), "VERIF_REPLAY="+replayPath, "VERIF_HARNESS="+harnessName)
+	if watchdog > 6 {
+		cmd.Env = append(cmd.Env, fmt.Sprintf("VERIF_WATCHDOG=%d", watchdog))
+	}
 	var out bytes.Buffer
 	cmd.Stdout = &out
 	cmd.Stderr = &out
